@@ -1,5 +1,6 @@
 (* Props/C05.v — C05: compaction never changes what any key reads, now or after a restart. *)
 From BC Require Import Store.Engine Store.Log Store.Inv Store.Refine Store.Merge Store.Sizes Store.Theorems Store.Pinned.
+From BC Require Resp.Frame Resp.Conn Resp.Handler Resp.OverEngine.
 Open Scope N_scope.
 
 (* 1. A merge pass — for every configuration [c], hence every threshold setting and every subset
@@ -51,3 +52,13 @@ Example C05_fixed_example :
   | _ => False
   end.
 Proof. vm_compute. split; reflexivity. Qed.
+
+(* ... seen from a connection (Resp/OverEngine.v): the background task may run a merge pass between any two commands;
+   whatever passes run, wherever, with whatever iteration order the index hands out, the connection is answered
+   byte for byte as without them, and the engine keeps denoting the same map. *)
+Theorem C05_clients_do_not_see_merges : forall c evs s m out, Resp.OverEngine.denotes s m -> Resp.OverEngine.bg_ready c s evs ->
+  let '(o1, s', t1) := Resp.OverEngine.handle_bg c s evs out in
+  let '(o2, m', t2) := Resp.Handler.handle m (Resp.OverEngine.frames_of evs) out in
+  o1 = o2 /\ t1 = t2 /\ Resp.OverEngine.denotes s' m'.
+Proof. exact Resp.OverEngine.handle_bg_sim. Qed.
+Print Assumptions C05_clients_do_not_see_merges.
